@@ -1,6 +1,382 @@
-(* Proofs about the packet codec model (C23, C24). *)
-From V Require Import Model.Packet.
+(* Proofs about the packet codec model: the decoder is total (C23). *)
+From V Require Import Model.Packet Proofs.Bytes.
 From V Require Import Gen.ConstPacket.
+From Coq Require Import ZifyBool.
+Ltac Zify.zify_post_hook ::= Z.div_mod_to_equations.
 
 Lemma census_holds : census_ok = true.
 Proof. vm_compute. reflexivity. Qed.
+
+(* ---- "does not panic" ---- *)
+Definition np {A} (r : res A) : Prop := forall s, r <> Panic s.
+
+Lemma np_ok : forall A (a : A), np (Ok a).
+Proof. intros A a s H; discriminate. Qed.
+Lemma np_err : forall A e, np (@Err A e).
+Proof. intros A e s H; discriminate. Qed.
+Lemma np_bind : forall A B (r : res A) (k : A -> res B),
+  np r -> (forall a, r = Ok a -> np (k a)) -> np (res_bind r k).
+Proof.
+  intros A B r k Hr Hk. destruct r; cbn [res_bind].
+  - apply Hk; reflexivity.
+  - apply np_err.
+  - exfalso; eapply Hr; reflexivity.
+Qed.
+
+Lemma bind_ok_inv : forall A B (r : res A) (k : A -> res B) b,
+  res_bind r k = Ok b -> exists a, r = Ok a /\ k a = Ok b.
+Proof. intros A B r k b H; destruct r; cbn [res_bind] in H; try discriminate. eauto. Qed.
+
+Lemma idx_np : forall b i site, 0 <= i < blen b -> np (idx b i site).
+Proof. intros b i site H. destruct (idx_ok b i site H) as (x & -> & _). apply np_ok. Qed.
+Lemma range_np : forall b lo hi site, 0 <= lo -> lo <= hi -> hi <= blen b -> np (range b lo hi site).
+Proof. intros; rewrite range_ok by assumption; apply np_ok. Qed.
+
+Definition oracle_wf (dec : oracle) : Prop :=
+  forall k n a c p, dec k n a c = Some p -> wf_bytes p.
+
+Lemma wf_cons_inv : forall x b, wf_bytes (x :: b) -> 0 <= x < 256 /\ wf_bytes b.
+Proof. intros x b H; inversion H; subst; split; assumption. Qed.
+
+(* ---- raw fields and the streamer ---- *)
+
+Lemma raw_np : forall data minimum v5, np (raw_deserialize data minimum v5).
+Proof.
+  intros data minimum v5. unfold raw_deserialize.
+  destruct data as [|b0 [|b1 [|b2 [|b3 rest]]]]; try apply np_err.
+  destruct (_ <? _); [apply np_err|].
+  destruct (_ && _); [apply np_err|].
+  destruct (slice _ 4 (nm4 _)); [|apply np_err].
+  destruct (slice _ 4 _); [apply np_ok|apply np_err].
+Qed.
+
+Lemma raw_inv : forall data v5 tid m, wf_bytes data ->
+  raw_deserialize data 4 v5 = Ok (tid, m) ->
+  4 <= wire_length m /\ wire_length m <= blen data /\ blen m <= 65531 /\ wf_bytes m.
+Proof.
+  intros data v5 tid m Hwf H. unfold raw_deserialize in H.
+  destruct data as [|b0 [|b1 [|b2 [|b3 rest]]]]; try discriminate.
+  remember (b0 :: b1 :: b2 :: b3 :: rest) as data eqn:Ed.
+  assert (0 <= b2 < 256 /\ 0 <= b3 < 256) as [Hb2 Hb3].
+  { subst data. apply wf_cons_inv in Hwf. destruct Hwf as [_ Hwf].
+    apply wf_cons_inv in Hwf. destruct Hwf as [_ Hwf].
+    apply wf_cons_inv in Hwf. destruct Hwf as [? Hwf].
+    apply wf_cons_inv in Hwf. destruct Hwf as [? Hwf]. split; assumption. }
+  destruct (_ <? _) eqn:E1; [discriminate|].
+  destruct (_ && _) eqn:E2; [discriminate|].
+  destruct (slice data 4 (nm4 _)) eqn:E3; [|discriminate].
+  destruct (slice data 4 (b2 * 256 + b3)) eqn:E4; [|discriminate].
+  clear Ed. inversion H; subst; clear H.
+  pose proof (wf_slice _ _ _ _ Hwf E4) as Hwm.
+  apply slice_some in E3. apply slice_some in E4.
+  destruct E3 as (_ & _ & E3 & _). destruct E4 as (_ & E4a & E4b & _ & E4c).
+  unfold wire_length. replace (2 + 2 + blen m) with (b2 * 256 + b3) by lia.
+  pose proof (nm4_ge (b2 * 256 + b3)). repeat split; try lia; assumption.
+Qed.
+
+Lemma stream_next_np : forall buf cutoff minimum v5 offset e off',
+  stream_next buf cutoff minimum v5 offset = Some (e, off') -> np e.
+Proof.
+  intros buf cutoff minimum v5 offset e off' H. unfold stream_next in H.
+  destruct (_ >? _); [discriminate|]. destruct (_ <=? _); [discriminate|].
+  pose proof (raw_np (bdrop offset buf) minimum v5) as Hn.
+  destruct (raw_deserialize _ _ _) as [[tid m]|e'|s]; inversion H; subst.
+  - apply np_ok. - apply np_err. - exfalso; eapply Hn; reflexivity.
+Qed.
+
+Lemma stream_next_inv : forall buf cutoff v5 offset tid m off', wf_bytes buf -> 0 <= offset ->
+  stream_next buf cutoff 4 v5 offset = Some (Ok (tid, m), off') ->
+  off' = offset + wire_length m /\ offset + 4 <= off' /\ off' <= blen buf /\ blen m <= 65531 /\ wf_bytes m.
+Proof.
+  intros buf cutoff v5 offset tid m off' Hwf Ho H. unfold stream_next in H.
+  destruct (_ >? _) eqn:E0; [discriminate|]. destruct (_ <=? _); [discriminate|].
+  destruct (raw_deserialize _ _ _) as [[tid' m']|e'|s] eqn:E; inversion H; subst.
+  apply raw_inv in E; [|apply wf_bdrop; assumption].
+  rewrite blen_bdrop in E by lia. destruct E as (? & ? & ? & ?).
+  repeat split; try lia; assumption.
+Qed.
+
+(* ---- typed decode ---- *)
+
+Lemma decode_field_np : forall tid m v5, blen m <= 65535 -> np (decode_field tid m v5).
+Proof.
+  intros tid m v5 H. unfold decode_field.
+  destruct (tid =? T_UID); [apply np_ok|].
+  destruct (tid =? T_COOKIE); [apply np_ok|].
+  destruct (tid =? T_PLACEHOLDER). { destruct (all_zero m); [apply np_ok|apply np_err]. }
+  destruct (_ && _). { destruct (all_ascii m); [apply np_ok|apply np_err]. }
+  destruct (_ && _).
+  { apply np_bind.
+    - unfold refreq_decode. replace (blen m >? 65535) with false by lia.
+      destruct (slice m 0 2); [apply np_ok|apply np_err].
+    - intros [plen off] _. destruct (_ || _); [apply np_ok|apply np_err]. }
+  destruct (_ && _); apply np_ok.
+Qed.
+
+Lemma inner_fields_np : forall pt v5, wf_bytes pt -> forall fuel offset,
+  0 <= offset <= blen pt -> blen pt - offset < Z.of_nat fuel -> np (inner_fields fuel pt v5 offset).
+Proof.
+  intros pt v5 Hwf. induction fuel as [|fuel IH]; intros offset Ho Hf.
+  - lia.
+  - cbn [inner_fields]. unfold EF_BARE_MINIMUM_SIZE.
+    destruct (stream_next pt 0 4 v5 offset) as [[e off']|] eqn:E; [|apply np_ok].
+    pose proof (stream_next_np _ _ _ _ _ _ _ E) as Hn.
+    destruct e as [[tid m]|e|s]; [|apply np_err|exfalso; eapply Hn; reflexivity].
+    apply stream_next_inv in E; [|assumption|lia]. destruct E as (_ & ? & ? & ? & ?).
+    destruct (tid =? T_ENCRYPTED); [apply np_err|].
+    apply np_bind; [apply decode_field_np; lia|]. intros f _.
+    apply np_bind; [apply IH; lia|]. intros r _. apply np_ok.
+Qed.
+
+(* ---- cookies ---- *)
+
+Lemma cookie_of_plaintext_np : forall pt, np (cookie_of_plaintext pt).
+Proof.
+  intros pt. unfold cookie_of_plaintext. destruct pt as [|b0 [|b1 kb]]; try apply np_ok.
+  assert (forall w, 0 <= w -> np (if blen kb =? 2 * w
+            then if (blen (btake w kb) =? w) && (blen (bdrop w kb) =? w)
+                 then Ok (Some (mkCookie (b0 * 256 + b1) (btake w kb) (bdrop w kb))) else Panic S_COOKIE_KEY
+            else Ok None)) as Hmk.
+  { intros w Hw. destruct (blen kb =? 2 * w) eqn:E; [|apply np_ok].
+    rewrite blen_btake by lia. rewrite blen_bdrop by lia.
+    replace ((w =? w) && (blen kb - w =? w)) with true by lia. apply np_ok. }
+  destruct (_ =? AEAD_ID_256); [apply Hmk; unfold COOKIE_KEY_WIDTH_256; lia|].
+  destruct (_ =? AEAD_ID_512); [apply Hmk; unfold COOKIE_KEY_WIDTH_512; lia|].
+  apply np_ok.
+Qed.
+
+Lemma decode_cookie_np : forall dec keys off c, np (decode_cookie dec keys off c).
+Proof.
+  intros dec keys off c. unfold decode_cookie.
+  unfold COOKIE_MIN_LEN_ID, COOKIE_MIN_LEN_CT, COOKIE_MIN_LEN_NONCE.
+  destruct (blen c <? 4 + 2 + 16) eqn:E; [apply np_ok|].
+  apply np_bind; [apply range_np; lia|]. intros idb _.
+  destruct (if _ <? _ then _ else _); [|apply np_ok].
+  apply np_bind; [apply idx_np; lia|]. intros c4 _.
+  apply np_bind; [apply idx_np; lia|]. intros c5 _.
+  apply np_bind; [apply range_np; lia|]. intros nonce _.
+  apply np_bind; [apply range_np; lia|]. intros rest _.
+  destruct (slice rest 0 _); [|apply np_ok].
+  destruct (dec _ _ _ _); [apply cookie_of_plaintext_np|apply np_ok].
+Qed.
+
+Lemma keyset_get_np : forall dec keys off context decoded, np (keyset_get dec keys off context decoded).
+Proof.
+  intros dec keys off context. induction context as [|f rest IH]; intros decoded; cbn [keyset_get].
+  - apply np_ok.
+  - destruct f; try apply IH.
+    destruct decoded; [apply np_ok|].
+    apply np_bind; [apply decode_cookie_np|]. intros r _. destruct r; [apply IH|apply np_ok].
+Qed.
+
+Lemma cipher_get_np : forall dec cx context, np (cipher_get dec cx context).
+Proof.
+  intros dec cx context. destruct cx; cbn [cipher_get]; try apply np_ok.
+  apply np_bind; [apply keyset_get_np|]. intros; apply np_ok.
+Qed.
+
+(* ---- the extension field loop ---- *)
+
+Lemma enc_from_message_np : forall m, np (enc_from_message m).
+Proof.
+  intros m. unfold enc_from_message. destruct m as [|b0 [|b1 [|b2 [|b3 rest]]]]; try apply np_err.
+  destruct (slice rest 0 _); [|apply np_err]. destruct (slice _ _ _); [apply np_ok|apply np_err].
+Qed.
+
+Lemma ef_loop_inv : forall dec cx data hs v5 buf, wf_bytes buf -> oracle_wf dec ->
+  0 <= hs -> hs + blen buf = blen data ->
+  forall fuel offset st, 0 <= offset <= blen buf -> blen buf - offset < Z.of_nat fuel ->
+  0 <= l_size st <= blen buf ->
+  np (ef_loop fuel dec cx data hs v5 buf offset st) /\
+  forall st', ef_loop fuel dec cx data hs v5 buf offset st = Ok st' -> 0 <= l_size st' <= blen buf.
+Proof.
+  intros dec cx data hs v5 buf Hwf Hdec Hhs Hlen.
+  induction fuel as [|fuel IH]; intros offset st Ho Hf Hs.
+  - lia.
+  - cbn [ef_loop]. unfold EF_V4_UNENCRYPTED_MINIMUM_SIZE.
+    destruct (stream_next buf (ef_cutoff v5) 4 v5 offset) as [[e off']|] eqn:E.
+    2:{ split; [apply np_ok|]. intros st' H; inversion H; subst; assumption. }
+    pose proof (stream_next_np _ _ _ _ _ _ _ E) as Hn.
+    destruct e as [[tid m]|e|s].
+    2:{ split; [apply np_err|discriminate]. }
+    2:{ exfalso; eapply Hn; reflexivity. }
+    apply stream_next_inv in E; [|assumption|lia]. destruct E as (Eoff & ? & ? & ? & ?).
+    rewrite <- Eoff.
+    assert (forall st1, l_size st1 = off' ->
+              np (ef_loop fuel dec cx data hs v5 buf off' st1) /\
+              forall st', ef_loop fuel dec cx data hs v5 buf off' st1 = Ok st' -> 0 <= l_size st' <= blen buf) as Hnext.
+    { intros st1 Hst1. apply IH; lia. }
+    destruct (tid =? T_ENCRYPTED).
+    + pose proof (enc_from_message_np m) as Hm.
+      destruct (enc_from_message m) as [[nonce ct]|e|s]; cbn [res_bind].
+      2:{ split; [apply np_err|discriminate]. }
+      2:{ exfalso; eapply Hm; reflexivity. }
+      pose proof (cipher_get_np dec cx (untrusted (l_ef (set_size st off')))) as Hc.
+      destruct (cipher_get _ _ _) as [h|e|s]; cbn [res_bind].
+      2:{ split; [apply np_err|discriminate]. }
+      2:{ exfalso; eapply Hc; reflexivity. }
+      destruct h as [h|]; [|apply Hnext; reflexivity].
+      rewrite range_ok by lia. cbn [res_bind].
+      destruct (dec _ _ _ _) as [pt|] eqn:Ed; [|apply Hnext; reflexivity].
+      pose proof (inner_fields_np pt v5 (Hdec _ _ _ _ _ Ed) (S (List.length pt)) 0) as Hi.
+      assert (np (inner_fields (S (List.length pt)) pt v5 0)) as Hi'.
+      { apply Hi; [pose proof (blen_nonneg pt); lia|unfold blen; lia]. }
+      destruct (inner_fields _ _ _ _) as [fs|e|s]; cbn [res_bind].
+      * apply Hnext; reflexivity.
+      * split; [apply np_err|discriminate].
+      * exfalso; eapply Hi'; reflexivity.
+    + pose proof (decode_field_np tid m v5) as Hd.
+      destruct (decode_field tid m v5) as [f|e|s]; cbn [res_bind].
+      * apply Hnext; reflexivity.
+      * split; [apply np_err|discriminate].
+      * exfalso; eapply Hd; [lia|reflexivity].
+Qed.
+
+Lemma efdata_deserialize_np : forall dec cx data hs v5, wf_bytes data -> oracle_wf dec ->
+  0 <= hs <= blen data -> np (efdata_deserialize dec cx data hs v5).
+Proof.
+  intros dec cx data hs v5 Hwf Hdec Hhs. unfold efdata_deserialize.
+  rewrite range_ok by lia. cbn [res_bind].
+  set (buf := btake (blen data - hs) (bdrop hs data)).
+  assert (blen buf = blen data - hs) as Hb.
+  { unfold buf. rewrite blen_btake; [reflexivity|]. rewrite blen_bdrop; lia. }
+  assert (wf_bytes buf) as Hwb by (apply wf_btake, wf_bdrop; assumption).
+  destruct (ef_loop_inv dec cx data hs v5 buf Hwb Hdec (proj1 Hhs) ltac:(lia)
+              (S (List.length buf)) 0 (mkL efdata_empty 0 true None)) as [Hn Hs].
+  { pose proof (blen_nonneg buf); lia. }
+  { unfold blen; lia. }
+  { cbn [l_size]. pose proof (blen_nonneg buf); lia. }
+  apply np_bind; [exact Hn|]. intros st Hst. apply Hs in Hst.
+  apply np_bind; [apply range_np; lia|]. intros; apply np_ok.
+Qed.
+
+(* ---- mac, headers, packet ---- *)
+
+Lemma mac_deserialize_np : forall data, np (mac_deserialize data).
+Proof.
+  intros data. unfold mac_deserialize, MAC_MINIMUM_SIZE, MAC_MAXIMUM_SIZE.
+  destruct (_ || _) eqn:E; [apply np_err|].
+  apply np_bind; [apply range_np; lia|]. intros k _.
+  apply np_bind; [apply range_np; lia|]. intros; apply np_ok.
+Qed.
+
+Lemma leap_np : forall d0, np (leap_from_bits ((d0 / 64) mod 4)).
+Proof.
+  intros d0. unfold leap_from_bits.
+  destruct (_ =? 0) eqn:E0; [apply np_ok|]. destruct (_ =? 1) eqn:E1; [apply np_ok|].
+  destruct (_ =? 2) eqn:E2; [apply np_ok|]. destruct (_ =? 3) eqn:E3; [apply np_ok|]. lia.
+Qed.
+
+Lemma mode_np : forall d0, np (mode_from_bits (d0 mod 8)).
+Proof. intros d0. unfold mode_from_bits. destruct (_ && _) eqn:E; [apply np_ok|lia]. Qed.
+
+Lemma field_np : forall data lo hi, 0 <= lo -> lo <= hi -> hi <= blen data -> np (field data lo hi).
+Proof. intros. unfold field. apply np_bind; [apply range_np; assumption|]. intros; apply np_ok. Qed.
+
+Ltac np_chain :=
+  repeat first
+    [ apply np_ok | apply np_err
+    | apply np_bind;
+      [ first [ apply idx_np; lia | apply field_np; lia | apply range_np; lia | apply leap_np | apply mode_np ]
+      | intros ? ? ] ].
+
+Lemma hdr34_deserialize_np : forall data, np (hdr34_deserialize data).
+Proof.
+  intros data. unfold hdr34_deserialize, HDR34_WIRE_LENGTH.
+  destruct (blen data <? 48) eqn:E; [apply np_err|]. np_chain.
+Qed.
+
+Lemma hdr5_deserialize_np : forall data, np (hdr5_deserialize data).
+Proof.
+  intros data. unfold hdr5_deserialize, HDR5_WIRE_LENGTH.
+  destruct (blen data <? 48) eqn:E; [apply np_err|].
+  apply np_bind; [apply idx_np; lia|]. intros d0 _.
+  destruct (negb _); [apply np_err|].
+  apply np_bind; [apply leap_np|]. intros leap _.
+  apply np_bind. { unfold v5_mode_from_bits. destruct (_ || _); [apply np_ok|apply np_err]. } intros mode _.
+  apply np_bind; [apply idx_np; lia|]. intros stratum _.
+  apply np_bind; [apply idx_np; lia|]. intros poll _.
+  apply np_bind; [apply idx_np; lia|]. intros precision _.
+  apply np_bind; [apply field_np; lia|]. intros rdel _.
+  apply np_bind; [apply field_np; lia|]. intros rdisp _.
+  apply np_bind; [apply idx_np; lia|]. intros d12 _.
+  apply np_bind. { unfold v5_timescale_from_bits. destruct (_ && _); [apply np_ok|apply np_err]. } intros ts _.
+  apply np_bind; [apply idx_np; lia|]. intros era _.
+  apply np_bind; [apply range_np; lia|]. intros fb _.
+  apply np_bind. { unfold v5_flags_from_bits. destruct (_ || _); [apply np_err|apply np_ok]. } intros flags _.
+  np_chain.
+Qed.
+
+Lemma construct_packet_np : forall h remaining d, np (construct_packet h remaining d).
+Proof.
+  intros h remaining d. unfold construct_packet. destruct remaining; [apply np_ok|].
+  apply np_bind; [apply mac_deserialize_np|]. intros; apply np_ok.
+Qed.
+
+Lemma with_fields_np : forall dec cx data h hs v5, wf_bytes data -> oracle_wf dec ->
+  0 <= hs <= blen data -> np (with_fields dec cx data h hs v5).
+Proof.
+  intros. unfold with_fields.
+  apply np_bind; [apply efdata_deserialize_np; assumption|]. intros [[[d remaining] ck] valid] _.
+  apply np_bind; [apply construct_packet_np|]. intros p _. destruct valid; apply np_ok.
+Qed.
+
+Lemma hdr34_ok_len : forall data h, hdr34_deserialize data = Ok h -> 48 <= blen data.
+Proof.
+  intros data h H. unfold hdr34_deserialize, HDR34_WIRE_LENGTH in H.
+  destruct (blen data <? 48) eqn:E; [discriminate|lia].
+Qed.
+Lemma hdr5_ok_len : forall data h, hdr5_deserialize data = Ok h -> 48 <= blen data.
+Proof.
+  intros data h H. unfold hdr5_deserialize, HDR5_WIRE_LENGTH in H.
+  destruct (blen data <? 48) eqn:E; [discriminate|lia].
+Qed.
+
+Theorem deserialize_total : forall dec cx data, wf_bytes data -> oracle_wf dec ->
+  forall s, deserialize dec cx data <> Panic s.
+Proof.
+  intros dec cx data Hwf Hdec. change (np (deserialize dec cx data)).
+  unfold deserialize. destruct data as [|x data']; [apply np_err|].
+  remember (x :: data') as data eqn:Ed.
+  assert (1 <= blen data) as Hlen by (subst data; rewrite blen_cons; pose proof (blen_nonneg data'); lia).
+  apply np_bind; [apply idx_np; lia|]. intros d0 _.
+  destruct (_ =? 3).
+  { apply np_bind; [apply hdr34_deserialize_np|]. intros h Hh. apply hdr34_ok_len in Hh.
+    apply np_bind; [|intros; apply np_ok].
+    unfold HDR34_WIRE_LENGTH. destruct (48 =? blen data); [apply np_ok|].
+    apply np_bind; [apply range_np; lia|]. intros r _.
+    apply np_bind; [apply mac_deserialize_np|]. intros; apply np_ok. }
+  destruct (_ =? 4).
+  { apply np_bind; [apply hdr34_deserialize_np|]. intros h Hh. apply hdr34_ok_len in Hh.
+    apply with_fields_np; try assumption. unfold HDR34_WIRE_LENGTH; lia. }
+  destruct (_ =? 5); [|apply np_err].
+  apply np_bind; [apply hdr5_deserialize_np|]. intros h Hh. apply hdr5_ok_len in Hh.
+  apply np_bind; [apply with_fields_np; try assumption; unfold HDR5_WIRE_LENGTH; lia|].
+  intros o _. destruct o as [p ck|p]; [|apply np_ok].
+  destruct (draft_id p); [|apply np_err]. destruct (bytes_eqb _ _); [apply np_ok|apply np_err].
+Qed.
+
+Corollary deserialize_outcome : forall dec cx data, wf_bytes data -> oracle_wf dec ->
+  (exists o, deserialize dec cx data = Ok o) \/ (exists e, deserialize dec cx data = Err e).
+Proof.
+  intros dec cx data Hwf Hdec. pose proof (deserialize_total dec cx data Hwf Hdec) as H.
+  destruct (deserialize dec cx data) as [o|e|s]; [left; eauto|right; eauto|exfalso; eapply H; reflexivity].
+Qed.
+
+(* the table oracles of the correspondence are well-formed when their plaintexts are *)
+Definition wf_bytes_b (b : bytes) : bool := forallb (fun x => (0 <=? x) && (x <? 256)) b.
+Lemma wf_bytes_check : forall b, wf_bytes_b b = true -> wf_bytes b.
+Proof.
+  intros b H. unfold wf_bytes_b in H. rewrite forallb_forall in H.
+  unfold wf_bytes. rewrite Forall_forall. intros x Hx. apply H in Hx. unfold is_byte. lia.
+Qed.
+
+Lemma table_dec_wf : forall t, forallb (fun e => wf_bytes_b (snd e)) t = true -> oracle_wf (table_dec t).
+Proof.
+  induction t as [|[[[[k' n'] a'] c'] p] t IH]; intros H k n a c q Hq; cbn [table_dec] in Hq.
+  - discriminate.
+  - cbn [forallb snd] in H. apply andb_prop in H. destruct H as [Hp Ht].
+    destruct (_ && _).
+    + inversion Hq; subst. apply wf_bytes_check; assumption.
+    + eapply IH; eassumption.
+Qed.
